@@ -13,6 +13,8 @@ def parse (t : List String) : Option Op :=
   | ["creader", r] => some (.creader (nat! r))
   | ["dreader", r] => some (.dreader (nat! r))
   | ["hmut", w, k, h, ty] => some (.hmut (nat! w) (nat! k) (nat! h) (tyTag ty))
+  -- custom-key path of the language bindings (`Writer::__internal_entry`): the same model call
+  | ["hmutx", w, k, h, ty] => some (.hmut (nat! w) (nat! k) (nat! h) (tyTag ty))
   | ["dhmut", h] => some (.dhmut (nat! h))
   | ["update", h, v] => some (.update (nat! h) (nat! v))
   | ["loan", h, l] => some (.loan (nat! h) (nat! l))
@@ -22,6 +24,8 @@ def parse (t : List String) : Option Op :=
   | ["discard", l] => some (.discard (nat! l))
   | ["dloan", l] => some (.dloan (nat! l))
   | ["hget", r, k, g, ty] => some (.hget (nat! r) (nat! k) (nat! g) (tyTag ty))
+  -- `Reader::__internal_entry`
+  | ["hx", r, k, g, ty] => some (.hget (nat! r) (nat! k) (nat! g) (tyTag ty))
   | ["dhget", g] => some (.dhget (nat! g))
   | ["get", g] => some (.get (nat! g))
   | ["fresh", g] => some (.fresh (nat! g))
